@@ -241,6 +241,7 @@ def multi_domain(comm_addr, cmd, offset, values):
 @contract("goodwe.modbus.create_modbus_rtu_request")
 class CreateRtu:
     props = ("C03",)
+    inline_at_calls = True
     args = {"comm_addr": "int", "cmd": "int", "offset": "int", "value": "int"}
     returns = "bytes"
     pure = True
@@ -263,6 +264,7 @@ class CreateRtu:
 @contract("goodwe.modbus.create_modbus_tcp_request")
 class CreateTcp:
     props = ("C03",)
+    inline_at_calls = True
     args = {"comm_addr": "int", "cmd": "int", "offset": "int", "value": "int"}
     returns = "bytes"
     pure = True
@@ -283,6 +285,7 @@ class CreateTcp:
 @contract("goodwe.modbus.create_modbus_rtu_multi_request")
 class CreateRtuMulti:
     props = ("C03",)
+    inline_at_calls = True
     args = {"comm_addr": "int", "cmd": "int", "offset": "int", "values": "bytes"}
     returns = "bytes"
     pure = True
@@ -305,6 +308,7 @@ class CreateRtuMulti:
 @contract("goodwe.modbus.create_modbus_tcp_multi_request")
 class CreateTcpMulti:
     props = ("C03",)
+    inline_at_calls = True
     args = {"comm_addr": "int", "cmd": "int", "offset": "int", "values": "bytes"}
     returns = "bytes"
     pure = True
